@@ -113,6 +113,9 @@ def sh(cmd, cwd=None, env=None, timeout=1800):
 
 def run_one(m):
     name, props, f, old, new = m
+    patch = None
+    if f == "@patch":
+        patch = old
     work = "/tmp/mutwork/" + name
     shutil.rmtree(work, ignore_errors=True)
     os.makedirs(work)
@@ -120,14 +123,19 @@ def run_one(m):
     env = dict(os.environ, CARGO_NET_OFFLINE="true", CARGO_TERM_COLOR="never")
     try:
         rc, out = sh(["git", "-C", R, "worktree", "add", "--detach", "-q", work + "/repo", "HEAD"])
-        edits = f if isinstance(f, list) else [(f, old, new)]
+        edits = [] if patch else (f if isinstance(f, list) else [(f, old, new)])
+        if patch:
+            rc, out = sh(["git", "-C", work + "/repo", "apply", patch])
+            if rc != 0:
+                res["status"] = "patch-does-not-apply"
+                return res
         for (ff, oo, nn) in edits:
             src = open(work + "/repo/" + ff).read()
             if src.count(oo) != 1:
                 res["status"] = "edit-does-not-apply(%d)" % src.count(oo)
                 return res
             open(work + "/repo/" + ff, "w").write(src.replace(oo, nn))
-        rc, out = sh(["cargo", "test", "--offline", "--workspace", "--no-fail-fast", "--target-dir", work + "/rtarget"], cwd=work + "/repo", env=env)
+        rc, out = (0, "") if patch else sh(["cargo", "test", "--offline", "--workspace", "--no-fail-fast", "--target-dir", work + "/rtarget"], cwd=work + "/repo", env=env)
         if rc != 0:
             res["status"] = "does-not-compile" if "error[" in out or "error:" in out and "test result" not in out else "killed-by-tests"
             return res
@@ -179,6 +187,18 @@ def main():
         else:
             pre.append(a)
     sel = [m for m in M if not pre or any(m[0].startswith(p) for p in pre)]
+    if sys.argv[1] == "seeds":
+        # every seeded regression (already confirmed against the test suite) in its own scratch copy, against the
+        # native monitor of its own property; C18 (and the layers of C01/C06/C07) need ./check and are run by
+        # tools/selftest.sh seeds serially
+        import glob
+        sel = []
+        for d in sorted(glob.glob("/verif/seeded/*/patch.diff")):
+            name = os.path.basename(os.path.dirname(d))
+            pid = name.split("-")[0]
+            if pid == "C18" or (pre and not any(name.startswith(p) for p in pre)):
+                continue
+            sel.append(("seed-" + name, [pid], "@patch", d, None))
     with cf.ThreadPoolExecutor(jobs) as ex:
         for r in ex.map(run_one, sel):
             own = r.get("checks", {})
